@@ -539,9 +539,12 @@ class Driver:
                 if k is None:
                     continue
                 s = self.model.sessions[k]
+                fired.append(k)
+                if s.ended not in (None, "timeout"):
+                    self.cov.hit("diag", f"timeout-fired-on-session-ended-by:{s.ended}")
+                    continue
                 self.cov.inc("timeouts_fired")
                 self.cov.hit("timeout_fired_at_quiet_ticks(since-effect/since-sent)", f"{s.quiet_all}/{s.quiet_on}|T={self.T}")
-                fired.append(k)
                 if s.ended is None and s.quiet_all <= self.T - 1:
                     self.v("timeout-fires-early", f"remote session #{k} was timed out {s.quiet_all} tick(s) after the server executed a "
                            f"command on it (remote_session_timeout_steps={self.T})")
